@@ -4,7 +4,11 @@
 
 package ct
 
-import "bytes"
+import (
+	"bytes"
+	"encoding/base64"
+	"encoding/json"
+)
 
 // Harness_C04_apiConversions: the JSON API messages convert to the internal structures without
 // loss, and refuse wrong lengths and trailing bytes.
@@ -57,3 +61,33 @@ func Harness_C04_apiConversions() {
 		vReach("sct-bad")
 	}
 }
+
+// Harness_C04_dsBase64: the base64 / JSON forms of DigitallySigned promise a complete parse.
+//
+//verif:opt maxpaths=2000 reach=ok,bad
+func Harness_C04_dsBase64() {
+	sigLen := vChoice("sig-len", 3)
+	sig := []byte{0xa1, 0xa2}[:sigLen]
+	wire := rfcDigitallySigned(4, 3, sig)
+	shape := vChoice("shape", 3) // exact | trailing byte | truncated
+	switch shape {
+	case 1:
+		wire = append(append([]byte{}, wire...), 0x00)
+	case 2:
+		wire = wire[:len(wire)-1]
+	}
+	b64 := base64.StdEncoding.EncodeToString(wire)
+	var d DigitallySigned
+	err := d.FromBase64String(b64)
+	if shape == 0 {
+		vAssert(err == nil && byte(d.Algorithm.Hash) == 4 && byte(d.Algorithm.Signature) == 3 && bytes.Equal(d.Signature, sig), "exact encoding accepted with the right fields")
+		back, berr := d.Base64String()
+		vAssert(berr == nil && back == b64, "converts back without loss")
+		vReach("ok")
+	} else {
+		vAssert(err != nil, "trailing or missing bytes refused by FromBase64String")
+		vReach("bad")
+	}
+}
+
+var _ = json.Marshal
